@@ -94,6 +94,7 @@ def main():
         ("slogdet", lambda: torch.slogdet(W)[1], lambda: torch.slogdet(w)[1]),
         ("solve_triangular", lambda: torch.linalg.solve_triangular(torch.triu(w), X.t(), upper=True), lambda: torch.linalg.solve_triangular(torch.triu(w), x.t(), upper=True)),
         ("lu_solve", lambda: torch.lu_solve(X.t(), *torch.lu(W)), lambda: torch.lu_solve(x.t(), *torch.linalg.lu_factor(w))),
+        ("linalg.lu_factor/lu_solve", lambda: torch.linalg.lu_solve(*torch.linalg.lu_factor(W), X.t()), lambda: torch.linalg.lu_solve(*torch.linalg.lu_factor(w), x.t())),
         ("lu-logabsdet", lambda: torch.sum(torch.log(torch.abs(torch.diag(torch.lu(W)[0])))), lambda: torch.slogdet(w)[1]),
         ("reshape/permute", lambda: X.reshape(3, 2).t().contiguous().view(-1), lambda: x.reshape(3, 2).t().contiguous().view(-1)),
         ("expand/repeat", lambda: X[None].expand(2, 2, 3).reshape(4, 3) + X.repeat(2, 1), lambda: x[None].expand(2, 2, 3).reshape(4, 3) + x.repeat(2, 1)),
